@@ -258,31 +258,9 @@ def _r18f(rep):
 
 
 def _r18g(rep):
-    """A setting the caller holds is forwarded: a helper's default must not decide what the command already knows."""
-    rep.rule("R18g", "same-name forwarding in the command-line script: when a function has a parameter p and calls a function of the script that has a parameter of the same name p with a default, the call passes p on (by keyword or position); otherwise the helper's default (e.g. load_phonopy_yaml=True in _get_fc_calculator_params) silently replaces what the command knows, and an option or tag such as FC_SYMMETRY has no effect for one of the two commands", 2)
-    tree = core.parse(SCRIPT)
-    defs = {n.name: n for n in tree.body if isinstance(n, ast.FunctionDef)}
-    n_inst = 0
-    for f in defs.values():
-        fparams = {a.arg for a in f.args.args + f.args.kwonlyargs}
-        for c in ast.walk(f):
-            if not (isinstance(c, ast.Call) and isinstance(c.func, ast.Name) and c.func.id in defs and c.func.id != f.name):
-                continue
-            g = defs[c.func.id]
-            gpos = [a.arg for a in g.args.args]
-            ndef = len(g.args.defaults)
-            with_default = set(gpos[len(gpos) - ndef:]) | {a.arg for a, d in zip(g.args.kwonlyargs, g.args.kw_defaults) if d is not None}
-            if any(k.arg is None for k in c.keywords) or any(isinstance(a, ast.Starred) for a in c.args):
-                continue
-            bound = set(gpos[: len(c.args)]) | {k.arg for k in c.keywords}
-            for p_ in sorted(fparams & with_default):
-                if p_ in ("log_level", "filename", "verbose"):
-                    continue  # reporting knobs: a different verbosity changes no result
-                n_inst += 1
-                rep.instance("R18g", SCRIPT, f.name, f"{g.name}(... {p_} ...) called from {f.name}", p_ in bound,
-                             f"{f.name} has '{p_}' but calls {g.name} without it, so {g.name} uses its default {core.src(dict(zip(gpos[len(gpos) - ndef:], g.args.defaults)).get(p_)) if p_ in gpos[len(gpos) - ndef:] else '?'}: what the command decided (which of phonopy / phonopy-load is running, which calculator) is replaced by the helper's assumption, and the same setting acts differently on the two routes", line=c.lineno)
-    if n_inst < 2:
-        raise AnalysisError(f"R18g: only {n_inst} same-name forwarding sites found in {SCRIPT}")
+    from rules import shared_forward
+
+    shared_forward.run(rep, "R18g", SCRIPT, None, 3)
 
 
 def selftest():
